@@ -135,6 +135,31 @@ func c09Dump() string {
 	return strings.ReplaceAll(d, "\n", " ⏎ ")
 }
 
+// c09DistributorParked: is the goroutine that runs HandleRegUpdates blocked in a select? The inner select of
+// the distributor has a default branch and never parks, so a parked distributor is waiting for its input.
+func c09DistributorParked() bool {
+	buf := make([]byte, 1<<20)
+	n := runtime.Stack(buf, true)
+	for _, g := range strings.Split(string(buf[:n]), "\n\n") {
+		lines := strings.Split(g, "\n")
+		if len(lines) < 2 || !strings.Contains(lines[0], "[select") {
+			continue
+		}
+		// "goroutine N [select]:" followed by the frames, innermost first; runtime frames (gopark, selectgo)
+		// are only shown with GOTRACEBACK=system: the first frame that is not the runtime's must be the distributor
+		for _, l := range lines[1:] {
+			if strings.HasPrefix(l, "\t") || strings.HasPrefix(l, "runtime.") {
+				continue
+			}
+			if strings.Contains(l, ".HandleRegUpdates(") {
+				return true
+			}
+			break
+		}
+	}
+	return false
+}
+
 type c09EnvWorld struct {
 	interaction string // share | probe | publish | dialback
 	response    string // now | late | never
@@ -150,9 +175,12 @@ func c09EnvWorlds() []c09EnvWorld {
 }
 
 func c09EnvResponses(out *vlib.Out) {
+	failed := 0 // worlds in which the watchdog fired: each costs 10-20 s, two are enough to report
 	for _, w := range c09EnvWorlds() {
 		for _, workers := range []int{1, 3} {
-			runC09Env(out, w, workers)
+			if failed < 2 && !runC09Env(out, w, workers) {
+				failed++
+			}
 		}
 	}
 	http.DefaultClient.CloseIdleConnections()
@@ -206,10 +234,11 @@ func c09DropCountersAcrossEpochs(out *vlib.Out) {
 				return false
 			}
 		}
-		// quiescence: the distributor has counted the last message (nothing else moves the counters)
+		// quiescence: the distributor has taken the last message (the send above returned) and is parked in
+		// its outer select again, i.e. it has counted that message and forwarded or dropped-and-counted it
 		deadline := time.Now().Add(c09EnvWatchdog)
-		for atomic.LoadInt64(&rm.totalIngestMessages) < sent && time.Now().Before(deadline) {
-			time.Sleep(50 * time.Microsecond)
+		for !c09DistributorParked() && time.Now().Before(deadline) {
+			time.Sleep(200 * time.Microsecond)
 		}
 		return true
 	}
@@ -261,10 +290,13 @@ func c09DropCountersAcrossEpochs(out *vlib.Out) {
 	out.Count("pipeline:" + name + ":checked")
 }
 
-func runC09Env(out *vlib.Out, w c09EnvWorld, workers int) {
+// runC09Env plays one world; false: the watchdog fired.
+func runC09Env(out *vlib.Out, w c09EnvWorld, workers int) (good bool) {
 	name := fmt.Sprintf("env:%s:%s:%d", w.interaction, w.response, workers)
 	sig := "C09:pipeline-stalled:" + w.interaction
+	good = true
 	fail := func(what string) {
+		good = false
 		out.OracleFail(sig, what+" ["+name+"]", "pipeline case="+name+" ; goroutines of the pipeline: "+c09Dump())
 	}
 	release := make(chan struct{}) // closed when the world ends: everything that "never" answers lets go
@@ -421,4 +453,5 @@ func runC09Env(out *vlib.Out, w c09EnvWorld, workers int) {
 	out.Checked()
 	stop()
 	out.Count("env:" + w.interaction + ":" + w.response)
+	return good
 }
